@@ -152,7 +152,7 @@ inductive PC
   | fcCas (h nw : Nat) (fin : Option Int)
   | fcP1 (c nw : Nat) (fin : Option Int)
   | fcP2 (c nw : Nat) (p : MP) (fin : Option Int)
-  | crash (n : Option Nat)                   -- null dereference (dead); `some n`: in `enqueue` of node `n`
+  | crash (n : Option Nat) (fin : Option Int) -- null dereference (dead); `some n`: in `enqueue` of node `n`; `fin`: as in `fcCas`
   | done (r : GRet)
 deriving DecidableEq, Repr
 
@@ -275,7 +275,7 @@ def step (s : St) (t : Tid) : Option (St × Ev) :=
     if s.next a = p then
       match p.1 with
       | some c => go (.fxWalk n a c) (evLdM (nloc a) p)
-      | none => go (.crash (some n)) (evLdM (nloc a) p)
+      | none => go (.crash (some n) none) (evLdM (nloc a) p)
     else go (.enqLd1 n) (evLdM (nloc a) (s.next a))
   | .fxWalk n a c =>
     match s.nptr c with
@@ -288,7 +288,7 @@ def step (s : St) (t : Tid) : Option (St × Ev) :=
     if s.next c = p then
       match p.1 with
       | some c' => go (.fxWalk n a c') (evLdM (nloc c) p)
-      | none => go (.crash (some n)) (evLdM (nloc c) p)
+      | none => go (.crash (some n) none) (evLdM (nloc c) p)
     else go (.fxWalk n a c) (evLdM (nloc c) (s.next c))
   | .fxCas n a c =>
     if s.tail = a then
@@ -327,7 +327,7 @@ def step (s : St) (t : Tid) : Option (St × Ev) :=
     if s.next c = p then
       match p.1 with
       | some c' => go (.hpWalk h a c') (evLdM (nloc c) p)
-      | none => go (.crash none) (evLdM (nloc c) p)
+      | none => go (.crash none none) (evLdM (nloc c) p)
     else go (.hpP2 h a c (s.next c)) (evLdM (nloc c) (s.next c))
   | .hpCas _ a c =>
     if s.tail = a then
@@ -337,7 +337,7 @@ def step (s : St) (t : Tid) : Option (St × Ev) :=
     if s.head = h then
       match p.1 with
       | some x => go (.skP1 h a x (hops + 1)) (evLd headLoc (some h))
-      | none => go (.crash none) (evLd headLoc (some h))
+      | none => go (.crash none none) (evLd headLoc (some h))
     else go (.dChk2 h a it p hops) (evLd headLoc (some s.head))
   | .skP1 h a it hops => go (.skP2 h a it (s.next it) hops) (evLdM (nloc it) (s.next it))
   | .skP2 h a it p hops =>
@@ -355,7 +355,7 @@ def step (s : St) (t : Tid) : Option (St × Ev) :=
         some ({ s with nbit := upd s.nbit it true,
                        pc := upd s.pc t (if s.maxHops ≤ hops then .fcCas h x (some (s.val x)) else .done [1, s.val x]) },
               evCasOkM (nloc it) p (p.1, true))
-      | none => some ({ s with nbit := upd s.nbit it true, pc := upd s.pc t (.crash none) }, evCasOkM (nloc it) p (p.1, true))
+      | none => some ({ s with nbit := upd s.nbit it true, pc := upd s.pc t (.crash none none) }, evCasOkM (nloc it) p (p.1, true))
     else go .dLdH1 (evCasFailM (nloc it) (s.next it) p)
   | .fcCas h nw fin =>
     if s.head = h then
@@ -367,7 +367,7 @@ def step (s : St) (t : Tid) : Option (St × Ev) :=
     if s.next c = p then
       match p.1 with
       | some c' => go (if c' = nw then fcEnd fin else .fcP1 c' nw fin) (evLdM (nloc c) p)
-      | none => go (.crash none) (evLdM (nloc c) p)
+      | none => go (.crash none fin) (evLdM (nloc c) p)
     else go (.fcP1 c nw fin) (evLdM (nloc c) (s.next c))
   | _ => none
 
